@@ -22,6 +22,7 @@ type ctxExtra struct {
 	noSafety    bool
 	inlineTag   string
 	heapSorts   map[string]string
+	heapKeySorts map[string]string
 	knownRefs   []string
 	freshRefs   map[string]bool
 	lossless    bool
@@ -55,6 +56,7 @@ func newCtx(e *Engine, fi *FuncInfo) *Ctx {
 		frameRefs: map[string][]string{}, frameAll: map[string]bool{}}
 	c.sentinels = map[string]bool{}
 	c.heapSorts = map[string]string{}
+	c.heapKeySorts = map[string]string{}
 	c.freshRefs = map[string]bool{}
 	c.unspecified = map[string]bool{}
 	c.calleesUsed = map[string]bool{}
@@ -191,6 +193,10 @@ func (e *Engine) verifyFunc(fi *FuncInfo) *FuncResult {
 				continue
 			}
 			ref := pre.eval(ex, entrySnap)
+			if is := pre.sortOf(ref.Ty); strings.HasPrefix(is, "If_") {
+				c.frameRefs[is+".$"+field] = append(c.frameRefs[is+".$"+field], ref.T)
+				continue
+			}
 			ss := pre.structSortOf(ref.Ty)
 			for _, f := range c.structFields(ss, field) {
 				k := ss + "." + f
@@ -318,7 +324,18 @@ func (c *Ctx) frameObligations(st, entry *State, ri int) {
 		for _, ref := range refs {
 			conds = append(conds, not(eq(r, ref)))
 		}
-		goal := fmt.Sprintf("(forall ((%s Int)) %s)", r, implies(and(conds...), eq(app("select", h, r), app("select", h0, r))))
+		ksort := c.heapKeySorts[key]
+		if ksort == "" {
+			ksort = "Int"
+		}
+		if ksort != "Int" {
+			// interface-keyed ghost heap: fresh references do not apply
+			conds = nil
+			for _, ref := range c.frameRefs[key] {
+				conds = append(conds, not(eq(r, ref)))
+			}
+		}
+		goal := fmt.Sprintf("(forall ((%s %s)) %s)", r, ksort, implies(and(conds...), eq(app("select", h, r), app("select", h0, r))))
 		_, f, _ := cutLast(key, ".")
 		c.addObl(st, fmt.Sprintf("frame/%s@ret%d", f, ri), "frame", goal, c.e.pos(c.fi.Decl.Pos()), "modifies only "+strings.Join(c.fi.Contract.Modifies, ", "), nil)
 	}
@@ -381,6 +398,10 @@ func (e *Engine) typeSpecForSort(ssort string) *TypeSpec {
 	for k, ts := range e.typeSpecs {
 		pkg, name, _ := strings.Cut(k, ".")
 		if ssort == "St_"+pkg+"_"+name || strings.HasPrefix(ssort, "St_"+pkg+"_"+name+"_") {
+			return ts
+		}
+		// interface types: If_<path>_<Type> (ghost fields keyed by the interface value)
+		if strings.HasPrefix(ssort, "If_") && (strings.HasSuffix(ssort, "_"+pkg+"_"+name) || ssort == "If_"+pkg+"_"+name) {
 			return ts
 		}
 		// library types are opaque sorts Ext_<path>_<Type>
@@ -491,6 +512,7 @@ func (e *Engine) verifyLemma(l *Lemma) *FuncResult {
 	fi := &FuncInfo{Key: "lemma." + l.Name, Pkg: l.Pkg, Contract: &Contract{Props: l.Props}}
 	c := newCtx(e, fi)
 	c.noSafety = true
+	c.bv = l.ModeBV
 	defer func() {
 		if r := recover(); r != nil {
 			res.Outside = fmt.Sprintf("engine error: %v", r)
